@@ -11,6 +11,7 @@ import (
 
 	"github.com/indexsupply/shovel/dig"
 	"github.com/indexsupply/shovel/eth"
+	"github.com/indexsupply/shovel/shovel/config"
 	"github.com/indexsupply/shovel/wpg"
 	"verif/harness/abi"
 	"verif/harness/lib"
@@ -58,10 +59,11 @@ func knownEvents() []known {
 }
 
 type sigDesc struct {
-	Op   string `json:"op"`
-	JSON string `json:"json"`
-	Sig  string `json:"signature,omitempty"`
-	Logs []any  `json:"logs,omitempty"`
+	Op    string   `json:"op"`
+	JSON  string   `json:"json"`
+	Sig   string   `json:"signature,omitempty"`
+	Logs  []any    `json:"logs,omitempty"`
+	Block []string `json:"block,omitempty"` // block fields of the integration (plan shape)
 }
 
 type hashDesc struct {
@@ -139,19 +141,59 @@ var gateMaxData = 640
 type prebuilt struct {
 	ig, ig2 dig.Integration
 	snap    []byte
+	plan    string // what the integration's own plan asks the node for
+	shape   []string
+}
+
+// block-field sets that lead to every plan shape of glf (what the node is asked
+// for): required fields only -> eth_getLogs; + log_addr; + block_time ->
+// headers + logs; + tx_value / tx_input -> blocks + logs; + tx_status -> receipts
+var planShapes = [][]string{
+	nil,
+	{"log_addr"},
+	{"block_time"},
+	{"tx_value", "tx_input"},
+	{"tx_status"},
+	{"block_hash", "tx_hash", "log_addr"},
+}
+
+var shapeCounter int
+
+// newIntegration builds an integration the way production does:
+// config.Integration.AddRequiredFields, then dig.New with its event, block
+// fields, table and notification.
+func newIntegration(d *abi.Decl, shape []string) (dig.Integration, string, error) {
+	c := config.Integration{Name: "ig", Enabled: true, Event: d.Event, Table: wpg.Table{Name: "t"}}
+	for _, f := range shape {
+		c.Block = append(c.Block, dig.BlockData{Name: f, Column: f})
+		c.Table.Columns = append(c.Table.Columns, wpg.Column{Name: f, Type: "bytea"})
+	}
+	for _, in := range d.Event.Selected() {
+		c.Table.Columns = append(c.Table.Columns, wpg.Column{Name: in.Column, Type: "bytea"})
+	}
+	c.AddRequiredFields()
+	ig, err := dig.New(c.Name, c.Event, c.Block, c.Table, c.Notification, c.FilterAGG)
+	if err != nil {
+		return ig, "", err
+	}
+	f := ig.Filter()
+	plan := fmt.Sprintf("headers=%v blocks=%v receipts=%v logs=%v", f.UseHeaders, f.UseBlocks, f.UseReceipts, f.UseLogs)
+	return ig, plan, nil
 }
 
 func build(d *abi.Decl) (*prebuilt, error) {
-	ig, err := dig.New("ig", d.Event, nil, wpg.Table{Name: "t"}, dig.Notification{}, "")
+	shape := planShapes[shapeCounter%len(planShapes)]
+	shapeCounter++
+	ig, plan, err := newIntegration(d, shape)
 	if err != nil {
 		return nil, err
 	}
 	snap := append([]byte(nil), dig.VerifSigHash(ig)...)
-	ig2, err := dig.New("ig", d.Event, nil, wpg.Table{Name: "t"}, dig.Notification{}, "")
+	ig2, _, err := newIntegration(d, shape)
 	if err != nil {
 		return nil, err
 	}
-	return &prebuilt{ig: ig, ig2: ig2, snap: snap}, nil
+	return &prebuilt{ig: ig, ig2: ig2, snap: snap, plan: plan, shape: shape}, nil
 }
 
 // unrelatedHashing: what a running indexer does between building an
@@ -176,6 +218,7 @@ func gateCase(out *lib.Out, g *abi.Gen, d *abi.Decl, kind string, pre *prebuilt)
 		unrelatedHashing(g.R)
 	}
 	ig := pre.ig
+	out.Count("gate-plan: " + pre.plan)
 	sigHash := abi.Keccak256([]byte(abi.CanonSig(d.Name, d.Ins))) // independent of the implementation
 	nidx := 0
 	for _, t := range d.Ins {
@@ -227,7 +270,8 @@ func gateCase(out *lib.Out, g *abi.Gen, d *abi.Decl, kind string, pre *prebuilt)
 	}
 	flip := append([]byte(nil), sigHash...)
 	flip[r.Intn(32)] ^= 1 << uint(r.Intn(8))
-	other := [][]byte{r.Bytes(32), flip, sigHash[:31], append(append([]byte(nil), sigHash...), 0), {}, abi.Keccak256([]byte(d.Name + "()"))}
+	other := [][]byte{r.Bytes(32), flip, sigHash[:31], append(append([]byte(nil), sigHash...), 0), {}, abi.Keccak256([]byte(d.Name + "()")),
+		abi.Keccak256([]byte(abi.CanonSig(d.Name+"x", d.Ins)))} // the last: same inputs layout, another name (Transfer vs Approval)
 	for i, o := range other {
 		data, _ = valid()
 		logs = append(logs, lg{fmt.Sprintf("other first topic #%d", i), topicsFor(o, nidx+1), data, 0})
@@ -262,7 +306,7 @@ func gateCase(out *lib.Out, g *abi.Gen, d *abi.Decl, kind string, pre *prebuilt)
 		}
 		fail := func(m string) {
 			if ok {
-				ok, msg = false, fmt.Sprintf("%s: log %q of %s", m, l.what, abi.CanonSig(d.Name, d.Ins))
+				ok, msg = false, fmt.Sprintf("%s: log %q of %s (integration plan: %s)", m, l.what, abi.CanonSig(d.Name, d.Ins), pre.plan)
 			}
 		}
 		passes := len(l.topics) == nidx+1 && bytes.Equal(l.topics[0], sigHash)
@@ -278,7 +322,9 @@ func gateCase(out *lib.Out, g *abi.Gen, d *abi.Decl, kind string, pre *prebuilt)
 		}
 		if !p && err == nil {
 			insertLogs = append(insertLogs, *el)
-			insertWant += n
+			if passes { // a log of another event must contribute nothing, whatever processLog said
+				insertWant += n
+			}
 		}
 		ts := make([]string, len(l.topics))
 		hs := make([]string, len(l.topics))
@@ -308,7 +354,7 @@ func gateCase(out *lib.Out, g *abi.Gen, d *abi.Decl, kind string, pre *prebuilt)
 		case err != nil:
 			ok, msg = false, "Integration.Insert failed: "+err.Error()
 		case int(nr) != insertWant || len(conn.Rows) != insertWant:
-			ok, msg = false, fmt.Sprintf("Integration.Insert copied %d rows, processLog gave %d", nr, insertWant)
+			ok, msg = false, fmt.Sprintf("Integration.Insert copied %d rows from a transaction holding the declared event's logs and decoys of other events, %d expected (integration plan: %s)", nr, insertWant, pre.plan)
 		}
 	}
 	// the stored hash, the event's hash and the pushed-down topic are byte-stable
@@ -331,7 +377,7 @@ func gateCase(out *lib.Out, g *abi.Gen, d *abi.Decl, kind string, pre *prebuilt)
 	}
 	out.Add(lib.Case{
 		Coq:  fmt.Sprintf("CGate %s %s %s", abi.CoqEvent(d.Event), abi.CB(pre.snap), lib.CList(terms)),
-		Desc: sigDesc{Op: "gate", JSON: d.JSON, Logs: descs}, Kind: kind, Nontrivial: true,
+		Desc: sigDesc{Op: "gate", JSON: d.JSON, Logs: descs, Block: pre.shape}, Kind: kind, Nontrivial: true,
 		OracleOK: ok, OracleMsg: msg, Size: len(d.JSON)})
 	return nil
 }
@@ -505,6 +551,7 @@ func replayC13(cfg lib.Cfg, out *lib.Out) error {
 				JSON  string    `json:"json"`
 				Input string    `json:"input"`
 				Logs  []logDesc `json:"logs"`
+				Block []string  `json:"block"`
 			} `json:"desc"`
 		} `json:"failing_input"`
 	}
@@ -552,7 +599,11 @@ func replayC13(cfg lib.Cfg, out *lib.Out) error {
 		ok = false
 	}
 	fmt.Printf("replay: signature %q (canonical %q) hash %x (keccak %x) indexed %d/%d\n", sig, want, sh, wantHash, dig.VerifNumIndexed(d.Event), nidx)
-	ig, _ := dig.New("ig", d.Event, nil, wpg.Table{Name: "t"}, dig.Notification{}, "")
+	ig, plan, err := newIntegration(d, ds.Block)
+	if err != nil {
+		return err
+	}
+	fmt.Printf("  integration plan: %s\n", plan)
 	unrelatedHashing(lib.NewRNG(cfg.Seed))
 	if !bytes.Equal(dig.VerifSigHash(ig), wantHash) {
 		fmt.Printf("  stored signature hash after later hashing: %x, expected %x\n", dig.VerifSigHash(ig), wantHash)
